@@ -104,7 +104,7 @@ def random_config(nss, rng, i):
     cfg.detector.sun_moon.sun_moon_cuts = bool(rng.random() < 0.7)
     cfg.detector.sun_moon.sun_alt_cut = float(np.radians(rng.choice([-18.0, -12.0, -6.0, 0.0, float(rng.uniform(-40, 20))])))
     cfg.detector.sun_moon.moon_alt_cut = float(np.radians(rng.choice([0.0, -5.0, 10.0, float(rng.uniform(-30, 40))])))
-    cfg.detector.sun_moon.moon_min_phase_angle_cut = float(np.radians(rng.choice([150.0, 90.0, 120.0, float(rng.uniform(0, 180))])))
+    cfg.detector.sun_moon.moon_min_phase_angle_cut = float(np.radians(rng.choice([150.0, 90.0, 120.0, 0.0, 180.0, float(rng.uniform(0, 180))])))
     return cfg
 
 
@@ -284,6 +284,46 @@ def part_time_grid(ctx, nss, RegionGeomToO):
             elif abs(off[0]) > tol or (n > 1 and np.max(np.abs(np.diff(off) - T / n)) > tol) or not (off[-1] < T and abs(off[-1] - (T - T / n)) <= tol):
                 ctx.violation("RegionGeomToO.generate_times", "not-equally-spaced", "instants are not t0 + k T/N, k < N", case)
     ctx.count("time-grid-sizes", top + 5)
+
+
+def part_timezone(ctx, nss, RegionGeomToO):
+    """the start of the time grid is the configured (UTC) instant, whatever time zone the process runs in"""
+    import os
+    import time
+    from astropy.time import Time
+    rng = ctx.rng
+    old_tz = os.environ.get("TZ")
+    try:
+        for tz in ("UTC0", "JST-9", "EST5EDT", "IST-5:30", "NZST-12NZDT"):
+            os.environ["TZ"] = tz
+            time.tzset()
+            for fmt, date in (("isot", "2022-11-21T02:34:00"), ("iso", "2024-02-29 23:59:30"), ("isot", f"20{int(rng.integers(10, 30))}-0{int(rng.integers(1, 10))}-1{int(rng.integers(0, 10))}T1{int(rng.integers(0, 10))}:00:00"),
+                              ("mjd", "59904.25"), ("fits", "2021-06-30T12:00:00")):
+                cfg = nss.NssConfig()
+                cfg.simulation.mode = "Target"
+                cfg.simulation.target.source_date = date
+                cfg.simulation.target.source_date_format = fmt
+                cfg.simulation.target.source_obst = 3600.0
+                ctx.case(("tz", tz, fmt), None)
+                ctx.count("timezone_cases")
+                try:
+                    geom = RegionGeomToO(cfg)
+                    times = geom.generate_times(12)
+                    want = Time(float(date) if fmt == "mjd" else date, format=fmt, scale="utc")
+                    d0 = float((times[0] - want).sec)
+                    if abs(d0) > 1e-6:
+                        ctx.violation("RegionGeomToO.generate_times", "start-depends-on-the-time-zone",
+                                      f"with TZ={tz} the first instant is {d0:+.3f} s away from the configured date {date!r} ({fmt}, UTC)",
+                                      {"TZ": tz, "source_date": date, "source_date_format": fmt, "first_instant_utc": times[0].utc.isot})
+                        return
+                except Exception as ex:  # noqa
+                    ctx.notes.append(f"time-zone probe {tz}/{fmt}: {type(ex).__name__}: {str(ex)[:80]}")
+    finally:
+        if old_tz is None:
+            os.environ.pop("TZ", None)
+        else:
+            os.environ["TZ"] = old_tz
+        time.tzset()
 
 
 def part_throw(ctx, nss, RegionGeomToO):
@@ -486,6 +526,7 @@ def run(ctx: Ctx):
     except Exception:  # noqa: BLE001
         pass
     part_time_grid(ctx, nss, RegionGeomToO)
+    part_timezone(ctx, nss, RegionGeomToO)
     part_throw(ctx, nss, RegionGeomToO)
     part_dark(ctx, nss, RegionGeomToO)
 
